@@ -26,7 +26,7 @@ def check(ctx, run):
     for fn in FNS:
         b = f.bodies.get(fn)
         if b is None:
-            run.violation('R13.1', fn, 'key-type', 'function not found (anchor lost)')
+            run.undecided('R13.1', fn, 'key-type', 'function not found (anchor lost)')
             continue
         ks = set()
         for l in b.locals:
